@@ -147,7 +147,7 @@ fn scenario(rng: &mut Rng, forced: Option<(u8, u8)>) -> Scenario {
                 t.push_str(&format!("mov byte [bx,1], {}\n", rng.u8()));
             }
         }
-        let cx: u16 = *rng.pick(&[0u16, 1, 2, 3, 16, 80, 257, 300]);
+        let cx: u16 = *rng.pick(&[0u16, 1, 2, 3, 16, 80, 257, 300, 1024, 1025, 4097, 65535]);
         let bp: u16 = match rng.below(4) {
             0 => off,
             1 => 0xFFFF,
